@@ -1,6 +1,213 @@
-//! C41: loops. (classifier first; the runner is added with the loop model)
-use crate::prog::Prog;
+//! C41: narrowing after loops. Same three checks as C15 on programs of `FL` (`F` + while / repeat / numeric and
+//! generic for / conditional break), through `flow.runl`. Oracle failures are classified by syntactic predicates
+//! of the *input program* (the open known findings of the pinned tree).
+use crate::c15;
+use crate::interp;
+use crate::prog::{self, Cond, GenCfg, Prog, Stmt};
+use std::collections::{BTreeSet, HashSet};
+use vh_common::{Args, Report, Rng};
 
-pub fn classify(_p: &Prog) -> Option<&'static str> {
-    None
+fn cond_vars(c: &Cond, out: &mut BTreeSet<usize>) {
+    match c {
+        Cond::Truthy(x) | Cond::TypeIs(x, ..) | Cond::IsNil(x, ..) => {
+            out.insert(*x);
+        }
+        Cond::Not(c) => cond_vars(c, out),
+        Cond::And(a, b) | Cond::Or(a, b) => {
+            cond_vars(a, out);
+            cond_vars(b, out);
+        }
+    }
+}
+
+/// variables assigned / read (probe or condition) anywhere in a statement list
+fn assigned(b: &[Stmt], out: &mut BTreeSet<usize>) {
+    for s in b {
+        match s {
+            Stmt::Assign(x, _) => {
+                out.insert(*x);
+            }
+            Stmt::If(_, t, ei, e) => {
+                assigned(t, out);
+                for (_, x) in ei {
+                    assigned(x, out);
+                }
+                if let Some(x) = e {
+                    assigned(x, out);
+                }
+            }
+            Stmt::While(_, x) | Stmt::WhileTrue(x) | Stmt::Repeat(x, _) | Stmt::ForNum(_, _, x) | Stmt::ForIn(_, x) => {
+                assigned(x, out)
+            }
+            _ => {}
+        }
+    }
+}
+
+fn reads(b: &[Stmt], out: &mut BTreeSet<usize>) {
+    for s in b {
+        match s {
+            Stmt::Probe(x) => {
+                out.insert(*x);
+            }
+            Stmt::If(c, t, ei, e) => {
+                cond_vars(c, out);
+                reads(t, out);
+                for (c, x) in ei {
+                    cond_vars(c, out);
+                    reads(x, out);
+                }
+                if let Some(x) = e {
+                    reads(x, out);
+                }
+            }
+            Stmt::While(c, x) | Stmt::Repeat(x, c) => {
+                cond_vars(c, out);
+                reads(x, out);
+            }
+            Stmt::WhileTrue(x) | Stmt::ForNum(_, _, x) | Stmt::ForIn(_, x) => reads(x, out),
+            Stmt::BreakIf(c) => cond_vars(c, out),
+            Stmt::Assign(..) => {}
+        }
+    }
+}
+
+#[derive(Default)]
+struct Found {
+    while_exit: bool,
+    forin_exit: bool,
+    back_edge: bool,
+}
+
+/// walk a block; `after` = variables read in the continuation of the block (everything executed after it,
+/// over-approximated syntactically, including later iterations of enclosing loops)
+fn scan(b: &[Stmt], after: &BTreeSet<usize>, f: &mut Found) {
+    for (i, s) in b.iter().enumerate() {
+        let mut cont = after.clone();
+        reads(&b[i + 1..], &mut cont);
+        match s {
+            Stmt::If(_, t, ei, e) => {
+                scan(t, &cont, f);
+                for (_, x) in ei {
+                    scan(x, &cont, f);
+                }
+                if let Some(x) = e {
+                    scan(x, &cont, f);
+                }
+            }
+            Stmt::While(_, body) | Stmt::WhileTrue(body) | Stmt::Repeat(body, _) | Stmt::ForNum(_, _, body) | Stmt::ForIn(_, body) => {
+                let mut a = BTreeSet::new();
+                assigned(body, &mut a);
+                let mut inside = BTreeSet::new();
+                reads(std::slice::from_ref(s), &mut inside);
+                if a.iter().any(|x| inside.contains(x)) {
+                    f.back_edge = true;
+                }
+                let read_after = a.iter().any(|x| cont.contains(x));
+                match s {
+                    Stmt::While(..) if read_after => f.while_exit = true,
+                    Stmt::ForIn(n, _) if read_after && *n > 0 => f.forin_exit = true,
+                    _ => {}
+                }
+                // the body's continuation: the rest of the loop (next iterations) and what follows the loop
+                let mut c2 = cont.clone();
+                c2.extend(inside.iter().copied());
+                scan(body, &c2, f);
+            }
+            _ => {}
+        }
+    }
+}
+
+/// Known-finding classifier (input program only). Order: the documented `while` defect first.
+pub fn classify(p: &Prog) -> Option<&'static str> {
+    let mut f = Found::default();
+    scan(&p.body, &BTreeSet::new(), &mut f);
+    if f.while_exit {
+        Some("while-nonliteral-cond-body-assigns-var-read-after-loop")
+    } else if f.forin_exit {
+        Some("generic-for-body-assigns-var-read-after-loop")
+    } else if f.back_edge {
+        Some("loop-body-assigns-var-read-inside-loop")
+    } else {
+        None
+    }
+}
+
+/// loop bodies assign nothing: the fragment `C41_partial` is proved for
+pub fn inert_loops(p: &Prog) -> bool {
+    fn b(v: &[Stmt]) -> bool {
+        v.iter().all(|s| match s {
+            Stmt::If(_, t, ei, e) => b(t) && ei.iter().all(|(_, x)| b(x)) && e.as_ref().is_none_or(|x| b(x)),
+            Stmt::While(_, x) | Stmt::WhileTrue(x) | Stmt::Repeat(x, _) | Stmt::ForNum(_, _, x) | Stmt::ForIn(_, x) => {
+                let mut a = BTreeSet::new();
+                assigned(x, &mut a);
+                a.is_empty() && b(x)
+            }
+            _ => true,
+        })
+    }
+    b(&p.body)
+}
+
+pub fn corpus() -> Vec<&'static str> {
+    vec![
+        // the documented defect: local k=nil; while not k do k='x' end; p(k)
+        "1,N,{,W,!,v,0,{,A,0,S1,},P,0,0,}",
+        // generic for drops the body
+        "1,N,{,G,2,{,A,0,T,},P,0,0,}",
+        // no back edge: second iteration reads what the first assigned
+        "1,N,{,F,1,2,{,P,0,0,A,0,S1,},}",
+        // inert loops (theorem fragment)
+        "2,N,S1,{,W,v,0,{,P,0,1,K,v,1,},P,1,0,R,{,P,2,1,},z,0,0,P,3,0,X,{,K,y,1,string,0,P,4,1,},P,5,1,}",
+        "1,I1,{,F,1,3,{,I,v,0,{,P,0,0,},n,K,z,0,1,},P,1,0,G,2,{,P,2,0,},P,3,0,}",
+    ]
+}
+
+pub fn run(args: &Args, report: &mut Report) {
+    report.rule = "distinct program (token stream) that contains at least one loop, reaches at least one probe in the VM, and has a probe whose inferred type is a union, a literal type, never or unknown".into();
+    let mut seen = HashSet::new();
+    if let Some(path) = &args.replay {
+        let v: serde_json::Value = serde_json::from_str(&std::fs::read_to_string(path).expect("replay file")).expect("json");
+        let toks = v["input"]["tokens"].as_str().expect("input.tokens");
+        let p = prog::parse_tokens(toks).expect("tokens parse");
+        c15::run_batch(&[p], report, &mut seen, "C41");
+        return;
+    }
+    let corpus: Vec<Prog> = corpus().iter().map(|t| prog::parse_tokens(t).expect("corpus parses")).collect();
+    c15::run_batch(&corpus, report, &mut seen, "C41");
+    let mut rng = Rng::new(args.seed);
+    let n = if args.thorough() { 60_000 } else { 2_500 };
+    let mut batch = Vec::new();
+    let mut made = 0;
+    let mut tries = 0;
+    while made < n && tries < n * 20 {
+        tries += 1;
+        let cfg = match tries % 3 {
+            0 => GenCfg { max_vars: 1, max_depth: 2, max_block: 3, logic: false, loops: true },
+            1 => GenCfg { max_vars: 2, max_depth: 3, max_block: 3, logic: true, loops: true },
+            _ => GenCfg { max_vars: 3, max_depth: 3, max_block: 2, logic: false, loops: true },
+        };
+        let p = prog::gen_prog(&mut rng, &cfg);
+        if !p.has_loop() {
+            continue;
+        }
+        // discard programs that do not terminate quickly (the VM has no step budget)
+        if interp::run(&p, 400).is_none() {
+            report.count("generated_nonterminating_discarded");
+            continue;
+        }
+        made += 1;
+        report.count(if inert_loops(&p) { "loops_inert_theorem_fragment" } else { "loops_assigning" });
+        match classify(&p) {
+            Some(c) => report.count(&format!("class_{c}")),
+            None => report.count("class_none"),
+        }
+        batch.push(p);
+        if batch.len() == 500 {
+            c15::run_batch(&batch, report, &mut seen, "C41");
+            batch.clear();
+        }
+    }
+    c15::run_batch(&batch, report, &mut seen, "C41");
 }
